@@ -5,7 +5,7 @@ import Resvg.Props.C08
 #print axioms Resvg.Props.C08.C08_fixed_point
 #print axioms Resvg.Props.C08.C08_second_round_trip_exact
 #print axioms Resvg.Props.C08.C08_integers_exact
-#print axioms Resvg.Props.C08.C08_large_integer_saturates
+#print axioms Resvg.Props.C08.C08_old_large_integer_saturates
 #print axioms Resvg.Props.C08.C08_pow_table_is_model
 #print axioms Resvg.Props.C08.hex_pair_round_trip
 #print axioms Resvg.Props.C08.C08_color_round_trip
